@@ -262,19 +262,21 @@ func builtinEscape(input string) string {
 	for index := 0; index < length; {
 		if builtinShouldEscape(input[index]) {
 			chr, width := utf8.DecodeRuneInString(input[index:])
-			chr16 := utf16.Encode([]rune{chr})[0]
-			if 256 > chr16 {
-				output = append(output, '%',
-					escapeBase16[chr16>>4],
-					escapeBase16[chr16&15],
-				)
-			} else {
-				output = append(output, '%', 'u',
-					escapeBase16[chr16>>12],
-					escapeBase16[(chr16>>8)&15],
-					escapeBase16[(chr16>>4)&15],
-					escapeBase16[chr16&15],
-				)
+			// B.2.1 works on code units: a character outside the BMP is two of them.
+			for _, chr16 := range utf16.Encode([]rune{chr}) {
+				if 256 > chr16 {
+					output = append(output, '%',
+						escapeBase16[chr16>>4],
+						escapeBase16[chr16&15],
+					)
+				} else {
+					output = append(output, '%', 'u',
+						escapeBase16[chr16>>12],
+						escapeBase16[(chr16>>8)&15],
+						escapeBase16[(chr16>>4)&15],
+						escapeBase16[chr16&15],
+					)
+				}
 			}
 			index += width
 		} else {
